@@ -889,6 +889,16 @@ impl Interpreter {
         use crate::compiler::Compiler;
         use bytecode_vm::BytecodeVM;
 
+        // A previous run that the host stopped stepping - in the middle of its code, or while
+        // it was suspended on an order or on a promise - must not leak into this one
+        if self.active_vm.is_some()
+            || self.active_saved_env.is_some()
+            || self.suspended_for_order.is_some()
+            || self.wait_graph.has_waiting_contexts()
+        {
+            self.abort_active_execution();
+        }
+
         // A run that failed or was abandoned never finalised its exports: the table is per run
         self.exports.clear();
 
